@@ -91,3 +91,88 @@ impl PartialSource for RecSource {
         r
     }
 }
+
+// ---- instrumented PartialCompiler / PartialStore (client boundary of the store) ----
+use liquid::partials::PartialCompiler;
+use liquid_core::runtime::PartialStore;
+use liquid_core::Renderable;
+
+#[derive(Clone, Debug)]
+pub struct StoreEvent {
+    pub op: &'static str,
+    pub name: String,
+    pub thread: u64,
+    pub enter: u64,
+    pub leave: u64,
+    pub ok: bool,
+}
+
+#[derive(Clone, Debug, Default)]
+pub struct StoreLog(pub Arc<Mutex<Vec<StoreEvent>>>);
+
+pub struct RecCompiler<C> {
+    pub inner: C,
+    pub log: StoreLog,
+}
+
+impl<C: PartialCompiler> PartialCompiler for RecCompiler<C> {
+    fn compile(
+        self,
+        language: Arc<liquid_core::Language>,
+    ) -> liquid_core::Result<Box<dyn PartialStore + Send + Sync>> {
+        let log = self.log.clone();
+        let inner = self.inner.compile(language)?;
+        Ok(Box::new(RecStore { inner, log }))
+    }
+    fn source(&self) -> &dyn PartialSource {
+        self.inner.source()
+    }
+}
+
+struct RecStore {
+    inner: Box<dyn PartialStore + Send + Sync>,
+    log: StoreLog,
+}
+
+impl std::fmt::Debug for RecStore {
+    fn fmt(&self, f: &mut std::fmt::Formatter<'_>) -> std::fmt::Result {
+        self.inner.fmt(f)
+    }
+}
+
+impl PartialStore for RecStore {
+    fn contains(&self, name: &str) -> bool {
+        self.inner.contains(name)
+    }
+    fn names(&self) -> Vec<&str> {
+        self.inner.names()
+    }
+    fn try_get(&self, name: &str) -> Option<Arc<dyn Renderable>> {
+        let enter = stamp();
+        let r = self.inner.try_get(name);
+        let leave = stamp();
+        self.log.0.lock().unwrap().push(StoreEvent {
+            op: "try_get",
+            name: name.to_string(),
+            thread: THREAD_ID.with(|t| t.get()),
+            enter,
+            leave,
+            ok: r.is_some(),
+        });
+        r
+    }
+    fn get(&self, name: &str) -> liquid_core::Result<Arc<dyn Renderable>> {
+        let enter = stamp();
+        let r = self.inner.get(name);
+        let leave = stamp();
+        self.log.0.lock().unwrap().push(StoreEvent {
+            op: "get",
+            name: name.to_string(),
+            thread: THREAD_ID.with(|t| t.get()),
+            enter,
+            leave,
+            ok: r.is_ok(),
+        });
+        r
+    }
+}
